@@ -329,7 +329,7 @@ func init() {
 	})
 
 	register(&Rule{
-		ID: "C15.R2", Props: []string{"C15"}, Min: 3,
+		ID: "C15.R2", Props: []string{"C15", "C10"}, Min: 3, // C10: a long-used engine must answer like a fresh one
 		Doc: "a cache hit is validated: returning a cached entry is guarded by Time.Equal(stored mtime, mtime of an fs.Stat made in this call) (or by the documented 'filesystem has no mtimes' zero test), and a failed Stat never leads to a hit",
 		Run: func(p *Prog, c *Ctx) {
 			fn := p.MustFn("(*vuego.Vue).loadCachedWithFrontMatter")
